@@ -237,6 +237,29 @@ class Scratch:
                     raise AnchorLost(f"slice prefix anchor /{rx['prefix_until']}/ matched {len(ms)} times in {sl['fn_anchor']}")
                 stmts.append(LINE_COMMENT_RE.sub("", body[1:end_of_statement(body, ms[0].start())]).strip())
                 continue
+            if isinstance(rx, dict) and "rest_of_block_after" in rx:
+                # the remainder of the enclosing block (e.g. a loop body) after the statement that
+                # begins at the unique match of rx["rest_of_block_after"]
+                ms = list(re.finditer(rx["rest_of_block_after"], body, re.S))
+                if len(ms) != 1:
+                    raise AnchorLost(f"slice anchor /{rx['rest_of_block_after']}/ matched {len(ms)} times in {sl['fn_anchor']}")
+                st_end = end_of_statement(body, ms[0].start())
+                i2, depth = st_end, 0
+                while i2 < len(body):
+                    j2 = _skip_string_or_comment(body, i2)
+                    if j2 is not None:
+                        i2 = j2
+                        continue
+                    if body[i2] in "([{":
+                        depth += 1
+                    elif body[i2] in ")]}":
+                        depth -= 1
+                        if depth < 0:
+                            break
+                    i2 += 1
+                rest = LINE_COMMENT_RE.sub("", body[st_end:i2]).strip()
+                stmts.append("for _verif_once in 0..1 {\n" + rest + "\n}" if rx.get("wrap_loop") else rest)
+                continue
             if isinstance(rx, dict):
                 # brace-matched block (e.g. an `if cond { .. }` statement) starting at the unique match of rx["block"]
                 ms = list(re.finditer(rx["block"], body, re.S))
